@@ -212,11 +212,32 @@ func TestC01(t *testing.T) {
 		"format/content* never assert (documented deviation)",
 		"multipleOf removed from the schema when an instance holds a number >= 2^50 (the property's restriction to exact float arithmetic); integer-valued keywords are small and spelled without exponent",
 		"numbers are exactly representable in float64")
+	rapid.Check(t, propC01(rec))
+}
+
+func init() {
+	replayers["C01"] = func(raw json.RawMessage) *failure {
+		var c schemaCase
+		if err := json.Unmarshal(raw, &c); err != nil {
+			return failf("REPLAY-HARNESS-ERROR: %v", err)
+		}
+		fixNils(c.Instances)
+		fl := checkSchemaCase(&c, refmodel.D2020, nil)
+		if isHarnessFailure(fl) {
+			return failf("REPLAY-HARNESS-ERROR: %s", fl.Msg)
+		}
+		return fl
+	}
+}
+
+// propC01 is the property body, shared by TestC01 (rapid) and FuzzC01 (native fuzzing over
+// rapid's bit stream).
+func propC01(rec *ev.Recorder) func(t *rapid.T) {
 	depth := 3
 	if thorough() {
 		depth = 4
 	}
-	rapid.Check(t, func(t *rapid.T) {
+	return func(t *rapid.T) {
 		c := &schemaCase{}
 		c.Schema = sgen.Draw(t, sgen.Opts{Draft: refmodel.D2020, MaxDepth: depth})
 		c.Instances = sgen.Instances(t, c.Schema, 4)
@@ -234,20 +255,5 @@ func TestC01(t *testing.T) {
 			report(t, rec, c, fl)
 		}
 		rec.Case()
-	})
-}
-
-func init() {
-	replayers["C01"] = func(raw json.RawMessage) *failure {
-		var c schemaCase
-		if err := json.Unmarshal(raw, &c); err != nil {
-			return failf("REPLAY-HARNESS-ERROR: %v", err)
-		}
-		fixNils(c.Instances)
-		fl := checkSchemaCase(&c, refmodel.D2020, nil)
-		if isHarnessFailure(fl) {
-			return failf("REPLAY-HARNESS-ERROR: %s", fl.Msg)
-		}
-		return fl
 	}
 }
